@@ -1,7 +1,7 @@
 SPECIFICATION Spec
 CONSTANTS
-  MaxDepth = 3
-  Mode = "syntax"
+  MaxDepth = 2
+  Mode = "typed"
   Contexts = {"field", "into_target", "variant_field", "tuple_field"}
 INVARIANTS TypeOK TypedSane
 CHECK_DEADLOCK FALSE
